@@ -15,7 +15,7 @@ USES_FACTS = True
 DRIVER = "shootmodel_det"
 
 MANIFEST = dict(
-    text="Lean 4 theorems: every Go map iteration of the generator is modelled with an explicit iteration-order oracle and the composed run is shown independent of it on well-formed inputs (distinct-key writes, existential tests, collect-then-sort, single contributor, injective alias map, unique type name); the table of map-range sites and of clock/random/environment uses is regenerated from the CURRENT source and must be covered; generated files are read back only through the accessor-interface look-up of embedded types (stale independence, step level; fixpoint for map/enum/rest). Findings with witnesses: duplicate alias, message order, embedder-first non-fixpoint, stale all-in-one output. Tied to the code by byte comparison of the files written by the rebuilt shoot over run histories (fresh x N, repeat x N, delete+rerun, edit with stale output vs fresh, separate->all-in-one->back) at two absolute locations, for generated new/map/enum/rest packages.",
+    text="Lean 4 theorems: every Go map iteration of the generator is modelled with an explicit iteration-order oracle and the composed run is shown independent of it on well-formed inputs (distinct-key writes, existential tests, collect-then-sort, single contributor, injective alias map, unique type name); the table of map-range sites and of clock/random/environment uses is regenerated from the CURRENT source and must be covered; generated files are read back only through the accessor-interface look-up of embedded types (stale independence, step level; fixpoint for map/enum/rest); a written file does not depend on what the directory held (C07_writes_any_dir) and the table of file-system READS of the CURRENT source is covered - main, which writes the output, reads nothing (C07_read_sites_covered, C07_output_not_read). Findings with witnesses: duplicate alias, message order, embedder-first non-fixpoint, stale all-in-one output. Tied to the code by byte comparison of the files written by the rebuilt shoot over run histories (fresh x N, repeat x N, delete+rerun, growing and SHRINKING source edits with the previous output in place vs a clean directory, separate->all-in-one->back) at two absolute locations, for generated new/map/enum/rest packages.",
     note="The theorem C07_proposed_repair_fixpoint is about the PROPOSED repair notes/proposed/deps-first-and-shadow-aio.patch (not applied; codeRepair = noRepair), not about the code at HEAD. Lean kernel + standard axioms; model tied by the correspondence run and by Gen/Facts.lean (mapRangeSites, envSites). go/packages file order and go/types redeclaration handling are assumptions of the disk model (validated by the stale-output legs).",
     technique="Lean 4 proof (permutation invariance of folds, list induction) + differential run-history correspondence",
     design="5/C07")
@@ -62,9 +62,151 @@ def edit_text(pk, rng):
     return q, "edit-text"
 
 
+# --- edits that SHRINK the output: a type, a field, a constant, a method is removed -------------------------------
+
+def _pos(names, x):
+    i = names.index(x)
+    return "last" if i == len(names) - 1 else "first" if i == 0 else "middle"
+
+
+def shrink_new(pk, rng):
+    """[(label, edited package)]: a listed type that no other listed type embeds is removed (label by where its
+    declarations were in the file: with `drop-last` the new all-in-one output is the old one cut short), a field is removed"""
+    out = []
+    listed = pk["listed"]
+    if len(listed) >= 2:
+        by = {}
+        for s in listed:
+            if any(s["name"] in detgen.embeds_of(o) for o in listed if o is not s):
+                continue
+            rest = [o for o in listed if o is not s]
+            q = detgen.build_new_pkg(rest, pk["flags"], pk["star"], render=detgen.deps_first_order(rest) if pk.get("render") else None)
+            a, b = pk["all_types"], q["all_types"]
+            lab = "last" if a[:len(b)] == b else "first" if a[len(a) - len(b):] == b else "middle"
+            by.setdefault(lab, []).append(q)
+        if "last" in by:
+            out.append(("drop-last", rng.choice(by.pop("last"))))
+        others = [(k, q) for k, v in sorted(by.items()) for q in v]
+        if others:
+            k, q = rng.choice(others)
+            out.append(("drop-" + k, q))
+    both = copy.deepcopy((pk["listed"], pk.get("render")))
+    listed2, render2 = both
+    pool = detgen.decl_order(render2 or listed2)
+    names = [s["name"] for s in listed2]
+    emb = [s for s in pool if s["name"] in names and any(s["name"] in detgen.embeds_of(o) for o in pool)]
+    cands = [s for s in (emb or listed2) if sum(1 for m in s["members"] if m["k"] == "f") >= 2]
+    if cands:
+        t = rng.choice(cands)
+        idx = [i for i, m in enumerate(t["members"]) if m["k"] == "f"]
+        del t["members"][idx[-1]]
+        out.append(("drop-field", detgen.build_new_pkg(listed2, pk["flags"], pk["star"], render=render2)))
+    return out
+
+
+def _without_lines(text, start_pred, end_pred):
+    """text without the lines from the first line satisfying start_pred up to (excluding) the next line, after it,
+    satisfying end_pred (or the end)"""
+    ls = text.split("\n")
+    for i, ln in enumerate(ls):
+        if start_pred(ln):
+            j = i + 1
+            while j < len(ls) and not end_pred(ls[j], j, ls):
+                j += 1
+            return "\n".join(ls[:i] + ls[j:])
+    return text
+
+
+def shrink_text(pk, rng):
+    out = []
+    names = list(pk["types"])
+    cmd = pk["cmd"]
+
+    def variant(files, types=None, setup=None):
+        q = dict(pk)
+        q["files"] = files
+        if types is not None:
+            q["types"] = types
+            q["all_types"] = [t for t in pk["all_types"] if t in types or t not in names]
+        if setup is not None:
+            q["setup"] = setup
+        return q
+
+    def drop_type(x):
+        files = dict(pk["files"])
+        if cmd == "enum":
+            files["t.go"] = _without_lines(files["t.go"], lambda ln: ln == "// %s is an enumeration" % x,
+                                           lambda ln, j, ls: re.match(r"// \w+ is an enumeration$", ln))
+        elif cmd == "rest":
+            files["t.go"] = _without_lines(files["t.go"], lambda ln: ln == "// %s talks to a service" % x,
+                                           lambda ln, j, ls: ls[j - 1] == "" and ls[j - 2] == "}")
+        else:
+            t = files["src/s.go"]
+            t = re.sub(r"type %s struct \{\n(?:[^\n]*\n)*?\}\n\n?" % x, "", t, count=1)
+            t = re.sub(r"func \(s \*%s\) toDest\([^\n]*\n(?:[^\n]*\n)*?\}\n\n?" % x, "", t, count=1)
+            if "dest." not in t:
+                t = t.replace("import \"@DEST@\"\n\n", "").replace("\nimport \"@DEST@\"\n", "")
+            files["src/s.go"] = t
+        return variant(files, [n for n in names if n != x])
+
+    if len(names) >= 2:
+        ok = [n for n in names if not any(r["cwd"] == "src" and r["args"][-1] == "-type=" + n for r in pk.get("setup", []))]
+        picks = []
+        if names[-1] in ok:
+            picks.append(names[-1])
+        rest = [n for n in ok if n != names[-1]]
+        if rest:
+            picks.append(rng.choice(rest))
+        for x in picks:
+            out.append(("drop-" + _pos(names, x), drop_type(x)))
+    # a member
+    files = dict(pk["files"])
+    order = list(names)
+    rng.shuffle(order)
+    for x in order:
+        if cmd == "enum":
+            t = files["t.go"]
+            cs = re.findall(r"^\t%s(Green|Blue|Black)$" % x, t, re.M)
+            if not cs or (cs[-1] == "Green" and (x + "FirstTwo") in t):
+                continue
+            files["t.go"] = t.replace("\t%s%s\n" % (x, cs[-1]), "", 1)
+            out.append(("drop-const", variant(files)))
+            break
+        if cmd == "rest":
+            t = files["t.go"]
+            m = re.search(r"(// %s talks to a service\n(?:[^\n]*\n)*?\}\n)" % x, t)
+            blk = m.group(1)
+            ms = list(re.finditer(r"\t//shoot: (?:Get|Post|Put|Delete)\([^\n]*\n\tM\d+\([^\n]*\n\n", blk))
+            if len(ms) < 2:
+                continue
+            nb = blk[:ms[-1].start()] + blk[ms[-1].end():]
+            files["t.go"] = t.replace(blk, nb, 1)
+            out.append(("drop-method", variant(files)))
+            break
+        t = files["src/s.go"]
+        m = re.search(r"type %s struct \{\n((?:[^\n]*\n)*?)\}\n" % x, t)
+        if not m:
+            continue
+        fl = re.findall(r"^\t[A-Z]\w* (?:int|string)$", m.group(1), re.M)
+        if len(fl) < 2:
+            continue
+        body = m.group(1)
+        k = body.rfind(fl[-1] + "\n")
+        files["src/s.go"] = t[:m.start(1)] + body[:k] + body[k + len(fl[-1]) + 1:] + t[m.end(1):]
+        out.append(("drop-field", variant(files)))
+        break
+    return out
+
+
 def hand_packages(rng):
     H = detgen
     out = []
+    # three independent types, nothing embedded, no import of their own: removing the last one makes the new
+    # all-in-one output a proper PREFIX of the stale one; removing the first / the middle one a suffix / a subsequence
+    out.append(H.build_new_pkg([H.hand_struct("Alpha", [H.hand_field("name", "string"), H.hand_field("id")]),
+                                H.hand_struct("Beta", [H.hand_field("label", "string"), H.hand_field("n")]),
+                                H.hand_struct("Gamma", [H.hand_field("kind"), H.hand_field("note", "string")])],
+                               ["-getset"], star=True, extra_feats=["hand-shrink"]))
     # embedder declared / listed before the embedded shoot type (F_embedderFirst)
     e = H.hand_struct("Echo", [H.hand_field("name", "string")])
     a = H.hand_struct("Alpha", [H.hand_embed(e), H.hand_field("id")])
@@ -127,7 +269,7 @@ def special_cases(rng):
 def make_packages(ctx):
     rng = ctx.rng
     pks = hand_packages(rng)
-    n_new, n_map, n_enum, n_rest = ctx.n((5, 2, 1, 1), (18, 6, 3, 3))
+    n_new, n_map, n_enum, n_rest = ctx.n((4, 2, 1, 1), (18, 6, 3, 3))
     for _ in range(n_new):
         pk = detgen.gen_new_pkg(rng, {"n": rng.choice([2, 3, 3, 4]), "opt": False, "generic": 0.05})
         if rng.random() < 0.6:
@@ -239,6 +381,11 @@ def listed_files(stderr):
     return out
 
 
+def run_outputs(d, args):
+    p = d.shoot(args)
+    return d.outputs() if p.returncode == 0 else {"<failed>": d.log[-1]["stderr"].encode()}
+
+
 def history(ctx, roots, job):
     """all runs of one (package, mode); returns the observation dict"""
     pk, pke, mode, nexec, cid = job["pk"], job["edited"], job["mode"], job["nexec"], job["id"]
@@ -257,34 +404,38 @@ def history(ctx, roots, job):
     obs["execs"] = all(f == fresh[0] for f in fresh)
     obs["msgs"] = msgs
     obs["nfiles"] = len(fresh[0])
-    # repeat in every directory
+    free = []            # directories that hold exactly the fresh output over the unedited sources
+    # repeat (quick: in two of the directories; thorough: in every one)
     rep = []
-    for d, f in zip(dirs, fresh):
+    for d, f in list(zip(dirs, fresh))[:job["nrepeat"]]:
         p = d.shoot(args)
         rep.append(p.returncode == 0 and d.outputs() == f)
     # and a third time in the first directory (an output that feeds back could oscillate with period two)
     p3 = dirs[0].shoot(args)
     obs["repeat"] = all(rep) and p3.returncode == 0 and dirs[0].outputs() == fresh[0]
+    used = {0, 1 % nexec, 2 % nexec}
+    if obs["repeat"]:
+        free.append(dirs[0])
     # delete the outputs, run again
     d = dirs[1 % nexec]
     d.delete_outputs()
     d.shoot(args)
     obs["delete"] = d.outputs() == fresh[0]
-    # edit the sources, stale output left in place  vs  the edited sources generated in a clean directory
+    if obs["delete"] and (1 % nexec) != 0:
+        free.append(d)
+    # edit the sources (the output grows), stale output left in place  vs  the edited sources generated in a clean directory
     d = dirs[2 % nexec]
     if (2 % nexec) == (1 % nexec):
         d.shoot(args)
     d.write(pke["files"])
     d.setup()       # map: the `shoot new` output in the source / destination packages is part of the map run's INPUT
-    p = d.shoot(mode_args(pke, mode))
-    stale = d.outputs() if p.returncode == 0 else {"<failed>": d.log[-1]["stderr"].encode()}
+    stale = run_outputs(d, mode_args(pke, mode))
     fr = []
-    for i in range(2):
+    for i in range(job["nfresh_edit"]):
         y = Dir(ctx, roots[0], "%s_y%d" % (cid, i), pke)
         y.setup()
-        p = y.shoot(mode_args(pke, mode))
-        fr.append(y.outputs() if p.returncode == 0 else {"<failed>": y.log[-1]["stderr"].encode()})
-    obs["stale"] = stale == fr[0] and fr[0] == fr[1]
+        fr.append(run_outputs(y, mode_args(pke, mode)))
+    obs["stale"] = stale == fr[0] and all(f == fr[0] for f in fr)
     if "<failed>" in fr[0]:
         obs["edited-fails"] = True
     # separate -> all-in-one -> separate again
@@ -294,6 +445,7 @@ def history(ctx, roots, job):
             d = Dir(ctx, roots[0], "%s_b" % cid, pk)
             d.setup()
             d.shoot(args)
+        used.add(3 % nexec)
         pa = d.shoot(mode_args(pk, "aio"))
         aio_name = detgen.aio_file(pk["gofile"], pk["cmd"])
         aio_after = d.outputs().get(aio_name)
@@ -307,6 +459,34 @@ def history(ctx, roots, job):
             obs["back-aio"] = aio_after == z.outputs().get(aio_name)
         else:
             obs["back-aio"] = pa.returncode == pz.returncode
+    free = [dirs[i] for i in range(nexec) if i not in used] + free
+    # edits that SHRINK the output (a type / a field / a constant / a method removed), the previous output left in place,
+    # against the edited sources generated in a clean directory.  What the run WRITES is compared (all-in-one modes: the
+    # whole set of generated files; -type=list: the files of the listed types - the file of a removed type legitimately stays)
+    obs["shrink"] = {}
+    for k, (label, pks) in enumerate(job["shrinks"]):
+        if free:
+            d = free.pop(0)
+        else:
+            d = Dir(ctx, roots[0], "%s_k%d" % (cid, k), pk)
+            d.setup()
+            d.shoot(args)
+        y = Dir(ctx, roots[0], "%s_w%d" % (cid, k), pks)
+        y.setup()
+        fk = run_outputs(y, mode_args(pks, mode))
+        if "<failed>" in fk:
+            obs["shrink"][label] = None
+            continue
+        d.write(pks["files"])
+        d.setup()
+        st = run_outputs(d, mode_args(pks, mode))
+        same = all(st.get(fn) == c for fn, c in fk.items()) and (mode == "sep" or set(st) == set(fk))
+        obs["shrink"][label] = same
+        if not same:
+            notes.append("%s %s: %s" % (cid, label, "; ".join(
+                "%s stale-dir %s bytes, clean-dir %s bytes%s" % (fn, len(st[fn]) if fn in st else None, len(fk[fn]) if fn in fk else None,
+                                                               " (clean is a prefix of what the stale directory holds)" if fn in st and fn in fk and st[fn] != fk[fn] and st[fn].startswith(fk[fn]) else "")
+                for fn in sorted(set(st) | set(fk)) if st.get(fn) != fk.get(fn))[:400]))
     # a second absolute location of different depth
     l2 = Dir(ctx, roots[1], "%s_l" % cid, pk)
     l2.setup()
@@ -314,6 +494,9 @@ def history(ctx, roots, job):
     obs["location"] = l2.outputs() == fresh[0]
     obs["cmd"] = "shoot " + " ".join(args)
     obs["fresh0"] = fresh[0]
+    obs["notes"] = notes
+    if job.get("env"):
+        obs["envres"] = env_legs(ctx, roots, job, fresh[0], job["env"])
     return obs
 
 
@@ -353,39 +536,59 @@ def tf(b):
 
 
 def run(ctx, obl):
+    import time
     res = core.Result()
     rng = ctx.rng
     ctx.shoot()
-    ctx.harness("declcmp") if False else None
     nexec = ctx.n(5, 20)
+    t_start = time.time()
     roots = [mk_root(ctx, "mod07"), mk_root(ctx, os.path.join("loc2", "deeper", "down", "mod07"))]
     pks = make_packages(ctx)
+    gp = core.run(["go", "env", "GOMODCACHE", "GOPATH"]).stdout.split()
+    alt = {"cache": ctx.sub("alt-gocache"), "home": ctx.sub("alt-home"), "tmp": ctx.sub("alt-tmp"), "modcache": gp[0], "gopath": gp[1]}
     jobs = []
+    seen_cmd = set()
     for i, pk in enumerate(pks):
         for f in pk["feats"]:
             res.hist("features", f)
         if pk["cmd"] == "new":
             pke, ename = edit_new(pk, rng)
+            shr = shrink_new(pk, rng)
         else:
             pke, ename = edit_text(pk, rng)
+            shr = shrink_text(pk, rng)
         res.hist("edits", ename)
         for mode in ["sep", "aio"] + (["star"] if pk.get("star") else []):
-            jobs.append({"id": "p%d%s" % (i, {"sep": "s", "aio": "a", "star": "t"}[mode]), "pk": pk, "edited": pke, "mode": mode,
-                         "nexec": max(nexec, pk.get("nexec", 0))})
-    results = core.pmap(lambda j: history(ctx, roots, j), jobs)
-    # environment legs for a few jobs (sequential: they share one alternative, initially empty, build cache)
-    gp = core.run(["go", "env", "GOMODCACHE", "GOPATH"]).stdout.split()
-    alt = {"cache": ctx.sub("alt-gocache"), "home": ctx.sub("alt-home"), "tmp": ctx.sub("alt-tmp"), "modcache": gp[0], "gopath": gp[1]}
-    env_res = {}
-    picked, seen_cmd = [], set()
-    for job, ob in zip(jobs, results):
-        if "failed" not in ob and (job["pk"]["cmd"], job["mode"]) not in seen_cmd and len(picked) < ctx.n(2, 12):
-            seen_cmd.add((job["pk"]["cmd"], job["mode"]))
-            picked.append((job, ob))
-    for job, ob in picked:
-        env_res[job["id"]] = env_legs(ctx, roots, job, ob["fresh0"], alt)
+            # -type=list: one removed type and the removed member; all-in-one modes: all of them
+            members = [e for e in shr if e[0] in ("drop-field", "drop-const", "drop-method")]
+            drops = [e for e in shr if e not in members]
+            mine = shr if mode != "sep" else drops[-1:] + members
+            for lab, _ in mine:
+                res.hist("edits", "shrink-" + lab)
+            job = {"id": "p%d%s" % (i, {"sep": "s", "aio": "a", "star": "t"}[mode]), "pk": pk, "edited": pke, "mode": mode,
+                   "nexec": max(nexec, pk.get("nexec", 0)), "shrinks": mine, "nrepeat": ctx.n(2, 10 ** 6), "nfresh_edit": ctx.n(1, 2)}
+            # the environment legs: for the first job of each (sub-command, mode), up to a tier-dependent number (they share
+            # one alternative, initially empty, build cache - the Go build cache is safe for concurrent use)
+            if (pk["cmd"], mode) not in seen_cmd and len(seen_cmd) < ctx.n(2, 12):
+                seen_cmd.add((pk["cmd"], mode))
+                job["env"] = alt
+            jobs.append(job)
     specials = special_cases(rng)
-    sres = core.pmap(lambda t: run_special(ctx, roots[0], t[1], t[0], max(nexec, 8, t[1].get("nexec", 0))), list(enumerate(specials)))
+    tasks = [("job", j) for j in jobs] + [("special", t) for t in enumerate(specials)]
+
+    def do(task):
+        if task[0] == "job":
+            return history(ctx, roots, task[1])
+        idx, sp = task[1]
+        return run_special(ctx, roots[0], sp, idx, max(nexec, 8, sp.get("nexec", 0)))
+    # the jobs with environment legs first (their first run fills an empty build cache)
+    tasks.sort(key=lambda t: 0 if t[0] == "job" and t[1].get("env") else 1)
+    done = dict(zip([id(t[1]) for t in tasks], core.pmap(do, tasks)))
+    results = [done[id(j)] for j in jobs]
+    sres = [done[id(t)] for t in [x[1] for x in tasks if x[0] == "special"]]
+    specials = [x[1][1] for x in tasks if x[0] == "special"]
+    env_res = {job["id"]: ob["envres"] for job, ob in zip(jobs, results) if "envres" in ob}
+    t_runs = time.time()
 
     cases, impl = [], {}
     extra = {}
@@ -421,9 +624,40 @@ def run(ctx, obl):
                 res.hist("env-legs", k)
                 if env_res[cid][k + "-note"]:
                     ctx.notes.append("%s %s: %s" % (cid, k, env_res[cid][k + "-note"]))
+        for n in ob["notes"]:
+            ctx.notes.append(n)
+        if pk["cmd"] != "new":
+            # map / enum / rest: no model counterpart needed (C07_fixpoint_partial: they never read generated files back;
+            # C07_writes_any_dir: a written file does not depend on the directory) - the property says "identical"
+            for lab, v in ob["shrink"].items():
+                if v is None:
+                    res.hist("skipped", "shrunk-sources-do-not-generate")
+                    continue
+                im["shrink:" + lab] = tf(v)
+                extra[cid].append("shrink:" + lab)
+                res.hist("shrink-legs", "%s/%s" % (lab, mode))
         cases.append({"id": cid, "sexp": sexp, "cmd": ob["cmd"], "key": cid, "files": json.dumps(pk["files"]),
                       "edited": json.dumps(pke["files"]), "ntypes": len(pk["types"])})
         impl[cid] = im
+        if pk["cmd"] == "new":
+            # new: the model decides (the accessor look-up of embedded types reads generated files back): the same history
+            # with the shrunk sources as the edit
+            for k, (lab, pks) in enumerate(job["shrinks"]):
+                v = ob["shrink"].get(lab)
+                if v is None:
+                    res.hist("skipped", "shrunk-sources-do-not-generate")
+                    continue
+                kid = "%sk%d" % (cid, k)
+                tys2 = pks["all_types"] if aio else pks["types"]
+                pl = [x for x in payload if x[0] != "edited"] + [["edited"] + [pks["tsexp"](t) for t in tys2]]
+                im2 = dict(im)
+                for kk in extra[cid]:
+                    im2.pop(kk, None)
+                im2["stale"] = tf(v)
+                cases.append({"id": kid, "sexp": dump(["case", kid, "genhist"] + pl), "cmd": ob["cmd"] + "   [then: %s]" % lab, "key": kid,
+                              "files": json.dumps(pk["files"]), "edited": json.dumps(pks["files"]), "ntypes": len(pk["types"]), "shrink": lab})
+                impl[kid] = im2
+                res.hist("shrink-legs", "%s/%s" % (lab, mode))
         # success message order (one case per separate-mode run)
         if mode == "sep":
             mid = cid + "g"
@@ -495,9 +729,16 @@ def run(ctx, obl):
                                    "case": v["case"][:60]} for v in res.violations[:16]]
     res.hist("packages", "total", len(pks))
     res.extra["process_executions_per_point"] = nexec
+    for c in cases:
+        if c.get("shrink") and model.get(c["id"]):
+            res.hist("shrink-region", "%s/%s impl=%s" % (c["shrink"], model[c["id"]]["region"] or "WF", impl[c["id"]]["stale"]))
+    res.extra["timing_s"] = {"runs": round(t_runs - t_start, 1), "model+compare": round(time.time() - t_runs, 1),
+                             "shoot_jobs": len(jobs)}
     res.rule = ("generated packages (new: struct trees with cross embeds, -getset/-json, embedded types declared before or after their embedders; map incl. chains of "
                 "nested embedded pointer structs; enum; rest) x modes (-type=list, -file=, -type=* when a go:generate line is present) x histories: fresh in N "
-                "directories, repeat in each, delete outputs + rerun, source edit with stale output in place vs the edited sources in two clean directories, "
+                "directories, repeat (quick: in two of them, thorough: in each; a third time in the first), delete outputs + rerun, source edits with the previous output left in place vs the edited "
+                "sources generated in a clean directory - one edit that GROWS the output (a field / constant / method added) and edits that SHRINK it (the last type of the file "
+                "removed: the new all-in-one output is the old one cut short; the first / a middle type removed; a field, a constant, a method removed), "
                 "separate -> all-in-one -> separate, a second absolute location of different depth; for one job per (sub-command, mode) also another environment "
                 "(empty GOCACHE, other HOME/TMPDIR/TZ/LANG, GOFLAGS=-mod=mod -trimpath, umask 077) and the same command run through `go generate`; N = %d process executions per point; written files compared "
                 "byte for byte. Plus the conditional map-range sites (type parameter named like the requested type; two parameters aliased to one placeholder; "
